@@ -154,6 +154,31 @@ def accuracy_block(ctx, rng):
                     tol = (1e-9 if name.startswith("linear") else 1e-6) * (1 + float(np.max(np.abs(ex))))
                     err = float(np.max(np.abs(J - ex)))
                     ctx.oracle("derivative-accurate", err <= tol, dict(inp, err=err), what="entry [i..., j...] differs from d f_i / d y_j by %.2e" % err)
+                # the fixed-depth path (adaptive=False: all Richardson levels, or a given number of them; richardson_iter=0 = the bare stencil)
+                for ri in (4, 8, 0):
+                    poly = name.startswith("linear") or name in ("quadratic", "matrix-to-matrix")
+                    if ri == 0 and not poly:
+                        continue        # the bare stencil (step sqrt(eps)) is only exact, up to rounding eps/step, for polynomials of degree <= base order
+                    try:
+                        Jn = np.asarray(U.JacobianWrapper(f, base_order=order, richardson_iter=ri, adaptive=False, flat=False)(y))
+                    except Exception as e:
+                        ctx.oracle("wrapper-runs", False, dict(inp, adaptive=False, richardson_iter=ri), what="JacobianWrapper(adaptive=False) raised %r" % (e,))
+                        continue
+                    if Jn.shape == ex.shape:
+                        # truncation: exact for linear maps; rounding of a difference quotient with step h: ~ eps |f| / h, where the smallest
+                        # step of the scheme is h = 0.5 * 4^-(ri-1) (sqrt(eps) for the bare stencil), which the code multiplies by |y_j| for
+                        # components that are large or smaller than the step
+                        hmin = {4: 0.5 * 4.0 ** -3, 8: 0.5 * 4.0 ** -7, 0: 2.0 ** -26}[ri]
+                        ya = np.abs(y.reshape(-1))
+                        steps = [hmin * v if (v > 1.0 or 0.0 < v < 0.5) else hmin for v in ya]
+                        fmax = float(np.max(np.abs(np.asarray(f(y))))) + 1.0
+                        rounding = 2000 * 2.0 ** -52 * fmax / min(steps)
+                        rel = 1e-11 if name.startswith("linear") else {4: 1e-3, 8: 1e-5, 0: 1e-5}[ri]
+                        tol = rel * (1 + float(np.max(np.abs(ex))) + float(np.max(ya))) + rounding
+                        err = float(np.max(np.abs(Jn - ex)))
+                        ctx.oracle("derivative-accurate", err <= tol, dict(inp, adaptive=False, richardson_iter=ri, err=err),
+                                   what="adaptive=False, richardson_iter=%r: entry [i..., j...] differs from d f_i / d y_j by %.2e" % (ri, err))
+                    ctx.count("fixed-depth:richardson_iter=%r" % (ri,))
                 if not name.startswith("linear"):
                     ctx.nontrivial((name, order, tuple(float(v) for v in y.reshape(-1))))
                 ctx.count("map:" + name)
